@@ -35,14 +35,19 @@ func (g *Gen) mapComps(t types.Type) []string {
 	return []string{v, in, ln}
 }
 
+// len(m) is never negative in a real execution; stating it only prunes states no execution reaches.
 func (g *Gen) mapLen(m string, t types.Type) string {
 	_, _, ln := g.mapCompNames(t)
-	return fmt.Sprintf("(select %s %s)", g.heapGet(ln), m)
+	r := fmt.Sprintf("(select %s %s)", g.heapGet(ln), m)
+	g.assumeAlways(g.le(g.idx(0), r, true))
+	return r
 }
 
 func (g *Gen) mapLenIn(m string, t types.Type, env *TEnv) string {
 	_, _, ln := g.mapCompNames(t)
-	return fmt.Sprintf("(select %s %s)", env.heap(ln), m)
+	r := fmt.Sprintf("(select %s %s)", env.heap(ln), m)
+	g.assumeAlways(g.le(g.idx(0), r, true))
+	return r
 }
 
 func (g *Gen) makeMap(x *ssa.MakeMap) {
@@ -96,6 +101,11 @@ func (g *Gen) lookup(x *ssa.Lookup) {
 	k := g.term(x.Index)
 	v, in, _ := g.mapCompNames(x.X.Type())
 	present := g.define("mp_ok", "Bool", fmt.Sprintf("(and (not (= %s 0)) (select (select %s %s) %s))", m, g.heapGet(in), m, k))
+	// a map that contains a key has at least one element (true of every real execution)
+	{
+		_, _, ln := g.mapCompNames(x.X.Type())
+		g.assumeAlways(fmt.Sprintf("(=> %s %s)", present, g.le(g.idx(1), fmt.Sprintf("(select %s %s)", g.heapGet(ln), m), true)))
+	}
 	val := g.define("mp_val", g.sortOf(mt.Elem()), fmt.Sprintf("(ite %s (select (select %s %s) %s) %s)", present, g.heapGet(v), m, k, g.zeroValue(mt.Elem())))
 	old := g.pristine[g.heapGet(v)]
 	if c := g.typeInv(val, mt.Elem(), old); c != "true" {
